@@ -15,9 +15,9 @@ theorem ordSeal_acq : ordSeal.acquires = true := by decide
 theorem ordFutexXchg_rel : ordFutexXchg.releases = true := by decide
 theorem ordGetLoad_acq : ordGetLoad.acquires = true := by decide
 theorem ordWaitForLoad_acq : ordWaitForLoad.acquires = true := by decide
-theorem ordWaitAdd_acq : ordWaitAdd.acquires = true := by decide
+theorem ordWaitRmw_acq : ordWaitRmw.acquires = true := by decide
 theorem ordWaitLoad_acq : ordWaitLoad.acquires = true := by decide
-theorem ordWaitForAdd_acq : ordWaitForAdd.acquires = true := by decide
+theorem ordWaitForRmw_acq : ordWaitForRmw.acquires = true := by decide
 theorem ordWaitForSlowLoad_acq : ordWaitForSlowLoad.acquires = true := by decide
 theorem ordRegLoad_acq : ordRegLoad.acquires = true := by decide
 theorem ordRegCasSucc_rel : ordRegCasSucc.releases = true := by decide
@@ -29,7 +29,7 @@ def hk : Pc → Bool
   | .s1 | .s2 _ | .s3 _ | .s4 _ | .rRun _ | .gR => true
   | _ => false
 
-structure InvH' (s : State) : Prop where
+structure InvH (s : State) : Prop where
   s1 : ∀ t, s.pc t = .s1 → s.hb t = true
   s2 : ∀ t d, s.pc t = .s2 d → s.hb t = true
   s3 : ∀ t d, s.pc t = .s3 d → s.hb t = true
@@ -41,30 +41,28 @@ structure InvH' (s : State) : Prop where
   node : ∀ id, id ∈ lists s → s.nodeRel id = true
   unsync : s.unsync = false
 
-def InvH (s : State) : Prop := s.adds < 2 ^ 31 → InvH' s
-
 theorem InvH.init (n : Option Nat) : InvH (State.init n) := by
-  intro _
   constructor <;> intros <;> (cases n <;> simp_all [State.init, lists] <;> try grind)
 
-theorem InvH'.frame {s s' : State} (hi : InvH' s) (t : Nat) (p' : Pc)
+theorem InvH.frame {s s' : State} (hi : InvH s) (t : Nat) (p' : Pc)
     (hpc : s'.pc = upd s.pc t p') (hp' : hk p' = false)
     (h1 : s'.head = s.head) (h2 : s'.det = s.det) (h3 : s'.xchgDone = s.xchgDone) (h4 : s'.sealRel = s.sealRel)
     (h5 : s'.sealAcq = s.sealAcq) (h6 : s'.futexRel = s.futexRel) (h7 : ∀ u, u ≠ t → s'.hb u = s.hb u)
-    (h8 : s'.nodeRel = s.nodeRel) (h9 : s'.unsync = s.unsync) : InvH' s' := by
+    (h8 : s'.nodeRel = s.nodeRel) (h9 : s'.unsync = s.unsync) : InvH s' := by
   obtain ⟨s1, s2, s3, s4, sealRel, futexRel, rrun, gR, node, unsync⟩ := hi
   have hl : lists s' = lists s := by simp [lists, h1, h2]
   constructor <;> intros <;> simp only [hpc, hl, h1, h3, h4, h5, h6, h8, h9] at * <;> grind [upd_apply, hk]
 
 set_option maxHeartbeats 4000000 in
 theorem InvH.step {s s' : State} (h : Step s s') (hP : InvP s) (hS : InvS s) (hF : InvF s) (hi : InvH s) : InvH s' := by
-  intro hb
+  have hi' := hi
+  have hF' := hF
   obtain ⟨ho, hp, noPend, c0_pend, pend_c0, pend_nodup, count_eq, count_lt, fired, zero⟩ := hP
   obtain ⟨cons_le, seals_le, xchg_seal, storage_none, storage_some, head_none, none_fired, latch_val, at_p0, at_s0, at_s1, at_s2, at_s3, at_s4, done, open_det⟩ := hS
   cases h with
   | act addr t h x l hst =>
-    cases hpc : s.pc t <;> simp only [stepThread, waitLoop, hpc, waitAddOperand, waitAddLocalBump, waitForAddOperand, waitForAddLocalBump,
-      ordSeal_rel, ordSeal_acq, ordFutexXchg_rel, ordGetLoad_acq, ordWaitForLoad_acq, ordWaitAdd_acq, ordWaitLoad_acq, ordWaitForAdd_acq,
+    cases hpc : s.pc t <;> simp only [stepThread, waitLoop, hpc, waitOrOperand, waitOrLocalMask, waitForOrOperand, waitForOrLocalMask,
+      ordSeal_rel, ordSeal_acq, ordFutexXchg_rel, ordGetLoad_acq, ordWaitForLoad_acq, ordWaitRmw_acq, ordWaitLoad_acq, ordWaitForRmw_acq,
       ordWaitForSlowLoad_acq, ordRegLoad_acq, ordRegCasSucc_rel, ordRegCasFail_acq, ordFutureReady_acq, Bool.and_true] at hst
     all_goals (try split at hst)
     all_goals (try split at hst)
@@ -72,34 +70,30 @@ theorem InvH.step {s s' : State} (h : Step s s') (hP : InvP s) (hS : InvS s) (hF
     all_goals (try simp only [Option.some.injEq, Prod.mk.injEq, reduceCtorEq] at hst)
     all_goals (try (obtain ⟨rfl, rfl⟩ := hst))
     all_goals (try (exfalso; assumption))
-    all_goals (dsimp only at hb; have hi' := hi (by omega); have hF' := hF (by omega))
     all_goals (first
-      | (refine InvH'.frame hi' t _ rfl ?_ rfl rfl rfl rfl rfl rfl ?_ rfl rfl <;> (first | (simp [hpc, hk]; done) | (intro u hu; simp [upd_apply, hu]; done)))
-      | (obtain ⟨word0, word1, _, _, _, _, _, _, _, _, _⟩ := hF'
-         have hxr : s.xchgDone = true → hasReady s.futex = true := fun hx => by
-           have := word1 hx; rw [this.2]; exact hasReady_ready (by omega)
+      | (refine InvH.frame hi' t _ rfl ?_ rfl rfl rfl rfl rfl rfl ?_ rfl rfl <;> (first | (simp [hk]; done) | (intro u hu; simp [upd_apply, hu]; done)))
+      | (have hxr : s.xchgDone = true → hasReady s.futex = true ∧ hasReady (s.futex ||| 1) = true := fun hx => by
+           have := wordReady_or (hF'.word1 hx); exact ⟨this.2.1, this.2.2.1⟩
          have hrx : hasReady s.futex = true → s.xchgDone = true := fun hr => by
            cases hx : s.xchgDone
-           · rw [word0 hx, hasReady_small (by omega)] at hr; cases hr
+           · rw [(wordOpen_or (hF'.word0 hx)).2.1] at hr; cases hr
            · rfl
-         have hrx1 : s.adds + 1 < 2 ^ 31 → hasReady (u32 (s.futex + 1)) = true → s.xchgDone = true := fun hlt hr => by
+         have hrx1 : hasReady (s.futex ||| 1) = true → s.xchgDone = true := fun hr => by
            cases hx : s.xchgDone
-           · rw [word0 hx] at hr
-             have : u32 (s.adds + 1) = s.adds + 1 := by unfold u32; omega
-             rw [this, hasReady_small (by omega)] at hr; cases hr
+           · rw [(wordOpen_or (hF'.word0 hx)).2.2] at hr; cases hr
            · rfl
          obtain ⟨s1, s2, s3, s4, sealRel, futexRel, rrun, gR, node, unsync⟩ := hi'
          have hot := ho t
          constructor <;> intros <;> (try dsimp only at *) <;> first | assumption | grind [upd_apply, lists]))
   | tick d =>
-    obtain ⟨s1, s2, s3, s4, sealRel, futexRel, rrun, gR, node, unsync⟩ := hi hb
+    obtain ⟨s1, s2, s3, s4, sealRel, futexRel, rrun, gR, node, unsync⟩ := hi
     constructor <;> intros <;> (try dsimp only at *) <;> first | assumption | grind [lists]
-  | set t v hidle hl hsc => refine InvH'.frame (hi hb) t _ rfl ?_ rfl rfl rfl rfl rfl rfl ?_ rfl rfl <;> (first | (simp [hk]; done) | (intro u hu; rfl))
-  | down t d hidle hl h1 hb' => refine InvH'.frame (hi hb) t _ rfl ?_ rfl rfl rfl rfl rfl rfl ?_ rfl rfl <;> (first | (simp [hk]; done) | (intro u hu; rfl))
-  | get t hidle => refine InvH'.frame (hi hb) t _ rfl ?_ rfl rfl rfl rfl rfl rfl ?_ rfl rfl <;> (first | (simp [hk]; done) | (intro u hu; rfl))
-  | waitFor t tau hidle h1 h2 => refine InvH'.frame (hi hb) t _ rfl ?_ rfl rfl rfl rfl rfl rfl ?_ rfl rfl <;> (first | (simp [hk]; done) | (intro u hu; rfl))
-  | reg t id hidle hs => refine InvH'.frame (hi hb) t _ rfl ?_ rfl rfl rfl rfl rfl rfl ?_ rfl rfl <;> (first | (simp [hk]; done) | (intro u hu; rfl))
-  | ready t hidle => refine InvH'.frame (hi hb) t _ rfl ?_ rfl rfl rfl rfl rfl rfl ?_ rfl rfl <;> (first | (simp [hk]; done) | (intro u hu; rfl))
+  | set t v hidle hl hsc => refine InvH.frame hi t _ rfl ?_ rfl rfl rfl rfl rfl rfl ?_ rfl rfl <;> (first | (simp [hk]; done) | (intro u hu; rfl))
+  | down t d hidle hl h1 hb' => refine InvH.frame hi t _ rfl ?_ rfl rfl rfl rfl rfl rfl ?_ rfl rfl <;> (first | (simp [hk]; done) | (intro u hu; rfl))
+  | get t hidle => refine InvH.frame hi t _ rfl ?_ rfl rfl rfl rfl rfl rfl ?_ rfl rfl <;> (first | (simp [hk]; done) | (intro u hu; rfl))
+  | waitFor t tau hidle h1 h2 => refine InvH.frame hi t _ rfl ?_ rfl rfl rfl rfl rfl rfl ?_ rfl rfl <;> (first | (simp [hk]; done) | (intro u hu; rfl))
+  | reg t id hidle hs => refine InvH.frame hi t _ rfl ?_ rfl rfl rfl rfl rfl rfl ?_ rfl rfl <;> (first | (simp [hk]; done) | (intro u hu; rfl))
+  | ready t hidle => refine InvH.frame hi t _ rfl ?_ rfl rfl rfl rfl rfl rfl ?_ rfl rfl <;> (first | (simp [hk]; done) | (intro u hu; rfl))
 
 theorem InvH.reach {s : State} (h : Reachable Init Step s) : InvH s := by
   induction h with
